@@ -36,14 +36,14 @@ PLAIN_OPS = ["new_sec", "new_prop", "new_sec_parent", "new_prop_parent", "create
              "create_property", "append", "append", "insert", "extend", "remove", "set_parent",
              "set_parent", "set_parent_none", "setitem", "setitem", "reorder", "rename", "rename",
              "rename_empty", "clone_attach", "merge", "link", "clean", "new_id", "new_doc",
-             "ctor_id"]
+             "ctor_id", "ctor_noname"]
 TARGETED_OPS = ["x_clash_append", "x_clash_parent", "x_clash_insert", "x_clash_rename",
                 "x_clash_setitem", "x_cycle_parent", "x_cycle_append", "x_attached_append",
                 "x_attached_insert", "x_extend_dup", "x_ctor_bad_card", "x_ctor_clash",
                 "x_setitem_own", "x_reorder_neg", "x_clash_create", "x_extend_clash"]
 
 STEP = st.tuples(st.sampled_from(PLAIN_OPS + TARGETED_OPS),
-                 st.integers(0, 40), st.integers(0, 40), st.integers(-3, 8),
+                 st.integers(0, 40), st.integers(0, 40), st.integers(-8, 10),
                  st.sampled_from(NAMES), st.booleans()).map(list)
 
 
@@ -361,7 +361,7 @@ class Engine(object):
             if obj is None:
                 info["skipped"] = True
                 return info
-            idx = c if op == "reorder" else -1 - (b % 3)
+            idx = c if op == "reorder" else -1 - (b % 8)
             if idx < 0:
                 info["cls"].append("reorder:negative")
             call(lambda: obj.reorder(idx))
@@ -499,6 +499,30 @@ class Engine(object):
                     info["good_id_wrong"] = (text, made[0].id)
                 if not _valid_uuid(text) and not inv.canonical_uuid(made[0].id):
                     info["bad_id_kept"] = (text, made[0].id)
+        elif op == "ctor_noname":
+            if self.full():
+                info["skipped"] = True
+                return info
+            empty = "" if flag else None
+            info["cls"].append("ctor:name_none_or_empty")
+            made = []
+            cont = self.pick(b, ("sec",))
+
+            def do():
+                which = a % 4
+                if which == 0:
+                    made.append(odml.Section(name=empty, type="t"))
+                elif which == 1:
+                    made.append(odml.Property(name=empty, values=[1]))
+                elif which == 2 and cont is not None:
+                    made.append(cont.create_section(empty, "t"))
+                elif cont is not None:
+                    made.append(cont.create_property(empty, [1]))
+            call(do)
+            if made:
+                self.add(made[0])
+                if made[0].name != made[0].id:
+                    info["name_fallback_failed"] = (repr(empty), made[0].name)
         elif op in ("x_ctor_bad_card", "x_ctor_clash"):
             if self.full():
                 info["skipped"] = True
